@@ -275,8 +275,12 @@ func xmlAddKeyElements(s Entry, parent *etree.Element) {
 		existingElem := parent.SelectElement(schemaKeys[i])
 		if existingElem == nil {
 			// and finally we create the patheleme key attributes
-			parent.CreateElement(schemaKeys[i]).SetText(treeElem.PathName())
+			existingElem = parent.CreateElement(schemaKeys[i])
+			existingElem.SetText(treeElem.PathName())
 		}
+		// the keys lead the entry, in the order of the key statement (going from the last key to the first)
+		parent.RemoveChild(existingElem)
+		parent.InsertChildAt(0, existingElem)
 		// move one key level up, no matter if the key had to be added or did already exist
 		treeElem = treeElem.GetParent()
 	}
